@@ -95,13 +95,16 @@ descriptorLoop:
 					isMaybe[i] = true
 				}
 			}
+			// Work on a copy: the arguments must stay untouched for the overloads tried after this one.
+			assertedArguments := make([]physical.Expression, len(arguments))
+			copy(assertedArguments, arguments)
 			for i := range arguments {
 				if isMaybe[i] {
 					targetType := descriptor.ArgumentTypes[i]
 					if descriptor.Strict {
 						targetType = octosql.TypeSum(targetType, octosql.Null)
 					}
-					arguments[i] = physical.Expression{
+					assertedArguments[i] = physical.Expression{
 						ExpressionType: physical.ExpressionTypeTypeAssertion,
 						Type:           *octosql.TypeIntersection(targetType, arguments[i].Type),
 						TypeAssertion: &physical.TypeAssertion{
@@ -117,7 +120,7 @@ descriptorLoop:
 				ExpressionType: physical.ExpressionTypeFunctionCall,
 				FunctionCall: &physical.FunctionCall{
 					Name:               fe.Name,
-					Arguments:          arguments,
+					Arguments:          assertedArguments,
 					FunctionDescriptor: descriptor,
 				},
 			}
